@@ -5,6 +5,7 @@ round()/int()/float() only on integer-valued quantities, which the exact number 
 the binary STL writer, whose float32 packing is compared with the float32 rounding of the exact values.
 Trimmed tessellation is not modelled in Lean; the `trim` stream is a labelled TEST of the "within one
 sampling cell" claim on axis-aligned rectangular trims (oracle only, no model line)."""
+import random
 import struct, math
 from fractions import Fraction as F
 from core import Case, q, qs, qpts, fr, show_list, show_pts, load_known
@@ -16,10 +17,12 @@ PARTIAL = [
     "trimmed tessellation (surface_trim_tessellate, ray intersections, tolerances) is not modelled; the 'omitted region "
     "matches the trimmed region to within one sampling cell' sub-claim is only TESTED by the exact oracle on axis-aligned "
     "rectangular polygonal trims (stream 'trim'); spline trims are not checked",
-    "'the triangles tile the rectangle exactly once' is proved as: faces are exactly the two triangles (v1,v2,v3),(v1,v3,v4) of "
-    "every grid cell, each with doubled signed parametric area u_jump*v_jump > 0, areas summing to the rectangle's, grid lines "
-    "strictly increasing from 0 to 1, every point of a cell lies in one of its two triangles and in both only on the diagonal; "
-    "the point-set statement for the whole rectangle is not assembled into one theorem",
+    "'the triangles tile the rectangle exactly once' is now a point-set theorem for the whole rectangle (C15.tiling_covers, "
+    "tiling_inside, tiling_exactly_once, tiling_interiors_disjoint, tiling_unit_square: every point of the rectangle spanned by the grid "
+    "lines - [0,1]^2 when the spacing divides size-1 - lies in a closed face, no face leaves it, a point interior to a face lies in no "
+    "other face); when the spacing does NOT divide size-1 the grid (hence the mesh) ends before parameter 1: the theorems then speak "
+    "about [0,(nu-1)u_jump]x[0,(nv-1)v_jump], as the code does; the quad mesh has vertex parameters (C15.quad_vertex_parameters*) but "
+    "no point-set tiling theorem of its own (its cells are the grid cells)",
     "file syntax of OBJ/OFF/STL (keywords, number printing, float32 packing of binary STL) is checked by the oracle only; the "
     "model covers index offsets, counts and the facet normal",
 ]
@@ -183,6 +186,14 @@ def gen(rng, tier):
             su, sv, s = _sizes(rng, hi)
         d.update(su=su, sv=sv, s=s)
         out.append(Case('float', '', d, tags=('float-mode',)))
+    # 8. vertex parameters of make_quad_mesh (repair F-15c): uv of every quad vertex against the model's quadVertexUV
+    #    (own generator so that the streams above are unchanged)
+    rq = random.Random(rng.randint(0, 2 ** 30))
+    for (su, sv) in [(2, 3), (3, 2), (1, 3), (3, 1)]:
+        out.append(Case('quaduv', "mesh quaduv %d %d" % (su, sv), dict(su=su, sv=sv)))
+    for _ in range(25 if quick else 200):
+        su, sv, _s = _sizes(rq, hi)
+        out.append(Case('quaduv', "mesh quaduv %d %d" % (su, sv), dict(su=su, sv=sv)))
     # 6. recorded finding F-01 (un-normalised knot vectors): only generated when it is listed for C15
     if _listed('F-01'):
         for _ in range(2):
@@ -370,6 +381,11 @@ def impl(c):
         if [v.data[0] for v in t.vertices] != list(range(d['su'] * d['sv'])) or [v.id for v in t.vertices] != list(range(d['su'] * d['sv'])):
             return "vertex ids are not the point indices"
         return "V=%d F=%s" % (len(t.vertices), _show_faces([list(f.data) for f in t.faces]))
+    if k == 'quaduv':
+        from geomdl import tessellate
+        t = tessellate.QuadTessellate()
+        t.tessellate(_synthetic(d['su'], d['sv']), size_u=d['su'], size_v=d['sv'])
+        return "V=%d uv=%s" % (len(t.vertices), show_pts([list(v.uv) for v in t.vertices]))
     if k == 'pos':
         s = _build(d, d['su'], d['sv'])
         s.tessellate(vertex_spacing=d['s'])
@@ -532,6 +548,27 @@ def oracle(c):
         for i, v in enumerate(vs):
             if [_f(x) for x in v.data] != [_f(x) for x in ev[i]]:
                 return "quad mesh through the surface: vertex %d is not the evaluated grid point %d" % (i, i)
+        return None
+    if k == 'quaduv':
+        su, sv = d['su'], d['sv']
+        if su < 2 or sv < 2:
+            return None          # one grid line: the parameter step is undefined, the code raises (compared as ERR)
+        from geomdl import tessellate
+        t = tessellate.QuadTessellate()
+        t.tessellate(_synthetic(su, sv), size_u=su, size_v=sv)
+        if len(t.vertices) != su * sv:
+            return "QuadTessellate: %d vertices for %d points" % (len(t.vertices), su * sv)
+        tv, _tf = _tri_direct(su, sv, 1)
+        for k_, v in enumerate(t.vertices):
+            uv = getattr(v, 'uv', None)
+            if uv is None or len(uv) != 2:
+                return "QuadTessellate: vertex %d has no parameter pair" % k_
+            want = [F(k_ // sv, su - 1), F(k_ % sv, sv - 1)]
+            if [_f(x) for x in uv] != want:
+                return "QuadTessellate: vertex %d has uv=(%s,%s), its grid parameters are (%s,%s)" % (
+                    k_, fr(uv[0]), fr(uv[1]), fr(want[0]), fr(want[1]))
+            if [_f(x) for x in tv[k_].uv] != want or tv[k_].data[0] != v.data[0]:
+                return "vertex %d: the quad and the triangle tessellation (spacing 1) disagree on its parameters" % k_
         return None
     if k in ('pos', 'pos-unnorm'):
         s = _build(d, d['su'], d['sv'], normalize=not d.get('unnorm'))
